@@ -10,6 +10,7 @@ plain PyYAML and loaded again.
 import collections
 import datetime
 import io
+import common
 import json
 import math
 import os
@@ -420,8 +421,7 @@ def run(pid, tier, replay=None):
     rnd = random.Random(SEED)
     rnd.shuffle(cases)
     chunks = chunked(cases, NCPU * 4)
-    with multiprocessing.get_context('fork').Pool(NCPU) as pool:
-        parts = pool.map(_chunk, chunks)
+    parts = common.fork_map(_chunk, chunks)
     for cs, part in zip(chunks, parts):
         for c, (res, n) in zip(cs, part):
             if n == 0 and not res:
